@@ -292,3 +292,26 @@ def observation_sweep(u: Unit):
             u.oblige(p, f"sweep.failure_surfaces_unchanged[{fail_at}]", bool(same), w, SEQ_REPLAY)
             u.oblige(p, f"sweep.no_run_after_failure[{fail_at}]", bool(len(started) == fail_at + 1), dict(w, started=len(started)), SEQ_REPLAY)
         u.cover(f"sweep.cover[{fail_at}]", ps, lambda p: True)
+
+
+@unit("C09", "calib.fitness_transparent")
+def fitness_transparent(u: Unit):
+    """ModelFittingDataTree.fitness (real method, shared symbolic model): when the exposure of pair k fails with any exception,
+    fitness fails with that very exception object (after adding its note); no fitness value is returned."""
+    from . import fitmodel as FM
+    rec = {}
+    cfg, fi = FM.mk_cfg(u, rec, may_raise=True)
+    ps = u.paths(fi, lambda ex: FM.setup(u, ex), cfg, label="ModelFittingDataTree.fitness[a run may fail]")
+    n_raise = 0
+    for p in ps:
+        e = p.st.ghost.get("MODEL_EXC")
+        if p.kind == "return":
+            u.oblige(p, "calib.fitness.no_value_on_failure", e is None, {}, lambda w: WAIT_REPLAY)
+            continue
+        n_raise += 1
+        same = isinstance(p.value, VSym) and e is not None and z3.eq(p.value.t, e.t)
+        u.oblige(p, "transparent[ModelFittingDataTree.fitness]", bool(same), {"raised": p.exc_name() or str(p.value)}, lambda w: WAIT_REPLAY)
+        notes = p.st.ghost.get("NOTES", {}).get(str(e.t), []) if e is not None else []
+        from pyvc.engine import exc_subclass
+        u.oblige(p, "notes.fitness_adds_a_note", z3.Implies(exc_subclass(e.t, z3.StringVal("Exception")), zb(len(notes) >= 1)) if e is not None else False, {}, lambda w: WAIT_REPLAY)
+    u.cover("calib.fitness.cover_failure", [1] * n_raise, lambda _: True)
